@@ -7,6 +7,7 @@ from vlib import *
 from props.gdscommon import *
 
 HARNESS_BINS = ["c01"]
+C10_PROOF_FILES = ["Gds/GdsSafety_proofs.v"]
 CLASS_REAL = "gds-real-rounds-to-16^63"
 TWO252 = (252 + 1023) << 52
 FOREIGN = ["/repo/gds21/resources/sample1.gds", "/repo/gds21/resources/invalid_dates.gds",
@@ -163,6 +164,33 @@ def gen_cases(chk):
         add("noise_records", b)
     return cases, dist
 
+def eval_balanced(chk, items, tag):
+    """c10_check terms -> codes. The terms differ in size by three orders of magnitude (a fault injected into a 60 kB
+    stream carries the whole stream), so the shards are balanced by term size (longest first into the lightest bin)
+    instead of by count; one coqc per bin, NCPU at a time."""
+    if not items:
+        return []
+    from concurrent.futures import ThreadPoolExecutor as TPE
+    cost = [len(str(it)) + 2000 for it in items]
+    nb = max(1, min(len(items), 3 * NCPU))
+    bins = [[] for _ in range(nb)]
+    load = [0] * nb
+    for i in sorted(range(len(items)), key=lambda i: -cost[i]):
+        b = load.index(min(load))
+        bins[b].append(i)
+        load[b] += cost[i]
+    bins = [b for b in bins if b]
+    def run(bi):
+        b = bins[bi]
+        return coq_eval_lists(HDR, [items[i] for i in b], chk.rundir, "%s_b%02d" % (tag, bi), shard=len(b))
+    with TPE(max_workers=NCPU) as ex:
+        outs = list(ex.map(run, range(len(bins))))
+    codes = [None] * len(items)
+    for b, o in zip(bins, outs):
+        for i, s in zip(b, o):
+            codes[i] = parse_z(s)
+    return codes
+
 def evaluate(chk, cases, tag):
     res = harness("c01", [{"op": "read_write_read", "bytes": c["bytes"].hex()} for c in cases], timeout=300)
     items, idx = [], []
@@ -175,7 +203,7 @@ def evaluate(chk, cases, tag):
         wtag = 3 if w is None else 0 if "ok" in w else 1 if "err" in w else 2
         items.append(capp("c10_check", cbytes(c["bytes"]), c_rres(r["r"]), cz(wtag), c_rres(r.get("r2"))))
         idx.append(i)
-    codes = eval_codes(chk, items, tag, shard=100)
+    codes = eval_balanced(chk, items, tag)
     for i, cde in zip(idx, codes):
         r = res[i]
         slim = {"r": "ok" if "ok" in r["r"] else r["r"]}
@@ -210,7 +238,7 @@ def classify(c, impl):
     return "other"
 
 def run(chk, replay=None):
-    chk.proof_leg(MODEL_TARGETS, "Properties/C10.v", PROOF_FILES, "Properties.C10")
+    chk.proof_leg(MODEL_TARGETS, "Properties/C10.v", C10_PROOF_FILES, "Properties.C10")
     chk.assumptions += [
         "time and stack use of the implementation are measured, not proved (DESIGN.md section 4): the model-level statement is a bound on fuel / records read",
         "out-of-bounds reads cannot be expressed in the model other than as Panic (every slice is checked); the correspondence shows the impl agrees class by class",
